@@ -388,11 +388,7 @@ func (e *Engine) step(p *partition, row map[string]any, ts, seq int64) []map[str
 			continue
 		}
 		for _, s := range succ {
-			if isComplete(s.states) {
-				completions = append(completions, s)
-			} else {
-				survivors = append(survivors, s)
-			}
+			e.sortSuccessor(s, &completions, &survivors)
 		}
 	}
 
@@ -400,11 +396,7 @@ func (e *Engine) step(p *partition, row map[string]any, ts, seq int64) []map[str
 	if seq >= p.nextStart {
 		seed := &run{states: closure(e.nfa.start), startTs: ts, startSeq: seq}
 		for _, s := range e.advance(seed, row) {
-			if isComplete(s.states) {
-				completions = append(completions, s)
-			} else {
-				survivors = append(survivors, s)
-			}
+			e.sortSuccessor(s, &completions, &survivors)
 		}
 	}
 
@@ -424,6 +416,26 @@ func (e *Engine) step(p *partition, row map[string]any, ts, seq int64) []map[str
 	e.capPending(p) // pending key 数上限：防贪婪延迟期无界累积
 	p.runs = survivors
 	return emitted
+}
+
+// sortSuccessor 归类一个后继 run。懒惰：沿用「终结才算完成」。贪婪：只要已到接受态就记为完成
+// （pending 每 startSeq 只留最长），同时只要还能消费行就继续延伸。否则一个已可接受的 run
+// 延伸到非接受态后失败（A (B C)? 遇 a b d）或被 WITHIN 丢弃（A+ 超窗）时，已成立的较短匹配会丢失。
+func (e *Engine) sortSuccessor(s *run, completions, survivors *[]*run) {
+	if e.lazy {
+		if isComplete(s.states) {
+			*completions = append(*completions, s)
+		} else {
+			*survivors = append(*survivors, s)
+		}
+		return
+	}
+	if hasAccept(s.states) {
+		*completions = append(*completions, s)
+	}
+	if len(matchStates(s.states)) > 0 {
+		*survivors = append(*survivors, s)
+	}
 }
 
 // advance 测试 row 能否被 run 当前闭包里的各 match-state 消费，返回全部后继 run（非确定性）。
